@@ -9,6 +9,20 @@ sys.path.insert(0, os.path.join(ROOT, "bin"))
 import plan  # noqa: E402
 
 TEXT = {
+    "C01": ("Adsr.tla (phase machine on the shared PhaseAcc.tla, fixed-point curves) is model-checked over all "
+            "interleavings of gate_on/gate_off/tick/set_input on a 5-bit instance (range, per-phase monotonicity, exact "
+            "end levels as invariants / action properties); recorded runs of the real Adsr (phase and accumulator via "
+            "the verif-hooks accessors, value as order key and Q24) are validated by TLC against Trace_Adsr.tla, which "
+            "evaluates range, monotonicity, end levels (exact, on keys) and the 0.5% curve fidelity against reference "
+            "tables generated from the documented RC formulas at every tick", "5"),
+    "C02": ("phase order and 'ends on the first tick at which the increments add up to the counter range' are checked "
+            "by TLC on the bounded Adsr.tla (ghost prog); on the real code every tick's observed accumulator step is "
+            "checked against the exact ideal step 2^24/(T*fs) (u128 rational arithmetic) with the stated rounding "
+            "bounds, and leaving/overstaying a phase against the same bounds, over the (fs, T) plane incl. sub-sample "
+            "phases", "5"),
+    "C03": ("the per-tick change is bounded by slope * span * step (+ sustain change) in TLC on the bounded model and "
+            "at every logged tick of the real code (slowest envelope around every table cell border, re-triggers at "
+            "random positions)", "5"),
     "C04": ("TLC checks gate/held-list/selected-note invariants and action properties on every interleaving of note "
             "messages, All-Notes-Off, polls and mode switches of the bounded Midi.tla; every transition and every pair "
             "of consecutive transitions of that graph is replayed on MonoMidiReceiver; keyboard-like and random-byte "
@@ -21,9 +35,49 @@ TEXT = {
             "consequences over a byte alphabet; the byte-level graph is replayed on the receiver; unstructured, "
             "status-heavy, injected (real-time / foreign / truncated at every split point) and exhaustive short byte "
             "sequences are validated byte by byte against it", "5"),
+    "C07": ("Quantizer.tla: TLC checks 'every conversion reports an allowed pitch class' and the forbid-last rule over "
+            "all histories of allow/forbid/convert of a bounded instance; recorded histories of the real Quantizer "
+            "(scale mask after every edit, note of every conversion) are validated against Trace_Quantizer.tla", "5"),
+    "C08": ("Rule/Accept in Quantizer.tla are the declarative reading of the statement (theorems: monotone, octave "
+            "periodic, chromatic = floor, convex acceptance regions, checked by TLC for all scales of the bounded "
+            "instance); fresh-quantizer sweeps of the real code are run-length compressed to input intervals per note "
+            "and TLC checks both ends of every interval against Accept (10 microvolt ties)", "5"),
+    "C09": ("Convert = window test else Rule; TLC checks stability, freedom, single note change under small noise "
+            "(chromatic) and monotonicity over all histories of the bounded instance; ramps, boundary noise, window-edge "
+            "inputs, jumps and scale edits on the real code are validated conversion by conversion", "5"),
+    "C10": ("Lfo.tla gives the five shapes as exact integer state functions of the phase; the real oscillator's read-outs "
+            "(exact integer images, sine as Q24) are validated against them and against a sine reference generated from "
+            "sin(2 pi p); thorough tier reads out all 2^24 phases", "5"),
+    "C11": ("phase advance, reset, set_phase and the increment realised for a requested frequency (bounds evaluated by the "
+            "specification on the exact ideal step logged as floor + 16 fractional bits) are checked on every recorded "
+            "call; drift-freedom is an invariant of the bounded model", "5"),
+    "C12": ("adjacent read-outs one tick apart are bounded by 2 pi 1.002 * step (sine) and 4 * step (triangle) at every "
+            "recorded pair, incl. every cell border and the wrap with increment 1; thorough: all 2^24 adjacent pairs", "5"),
+    "C13": ("Glide.tla models the lag as 'move a fixed fraction toward the input'; TLC checks hull, monotone approach, "
+            "settling and the dead-band logic over all schedules of a bounded instance; the real filter is validated "
+            "sample by sample against an envelope (one-step hull, range, no retreat, no crossing beyond the f32 band)", "5"),
+    "C14": ("the dead band / clamps decide the time in effect in the specification; coverage windows (>= 99.5% after t, "
+            "40-55% after t/10, fastest settled in 8 samples, > 10 s = 10 s) are evaluated on recorded steps over the "
+            "(fs, t) plane and after chains of nearby set_time calls", "5"),
+    "C15": ("Ribbon.tla: press <=> unbroken in-range run of capture length (ghost streak), edges exactly once; TLC on "
+            "small and on the real 100/500 Hz configurations, whose complete graphs are replayed on RibbonController; "
+            "tap/press/glitch traces at all seven rates are validated poll by poll", "5"),
+    "C16": ("the specification keeps the capture window and its running sum and computes the corrected mean in Q24; "
+            "every reported value is checked against it; pair runs of two controllers differing only in samples that must "
+            "not matter (earlier press, newest discarded samples) must agree exactly, a raised sample must not lower it", "5"),
+    "C17": ("liveness (every attack reaches sustain, every release reaches rest once gate events stop) is checked by TLC "
+            "under weak fairness of Tick with no state constraint; all six modules are driven over their argument end "
+            "points in the overflow-checks/debug-assertions build inside catch_unwind, a panic is an event no trace "
+            "action accepts; on the real code an envelope that overstays a phase is flagged at a definite tick", "5"),
     "C18": ("controller routing/reset/no-op and pitch-bend assembly are action properties checked by TLC; all 128x128 "
             "controller/value pairs and all 16384 pitch-bend values are recorded from the real receiver and validated "
             "(scaling via order keys, strict monotonicity, exact anchors)", "5"),
+    "C19": ("stairstep = note/12 is an exact order-key comparison; stairstep + fraction is compared with the input in ulps "
+            "of the larger operand; fraction ranges (chromatic fresh, hysteresis-kept) in microvolt units with the 10 uV "
+            "tie tolerance; on every recorded conversion and every run of the fresh sweeps", "5"),
+    "C20": ("both float conversions are evaluated for all 2^32 bit patterns and reported as maximal runs over the order "
+            "key; TLC checks that the runs tile the key range and that each is the identity inside the bounds or the "
+            "nearer bound outside (NaN -> a bound); all 256 note and channel values; envelope pairs (raw vs bound)", "5"),
 }
 
 NOTE = ("assumes TLC/SANY/CommunityModules, rustc and the harness' faithful logging; bounded model (small constants) for "
